@@ -124,6 +124,7 @@ def make_sim(case):
         return T.Type4({bytes.fromhex(f): bytes(v) for f, v in case["files"].items()}, ats=bytes(case.get("ats", bytes.fromhex("067577810280"))),
                        silent_from=sf, aids=tuple(case.get("aids", ("v2", "v1"))), short_read=case.get("short_read"),
                        short_from=case.get("short_from", 0),
+                       short_file=bytes.fromhex(case["short_file"]) if case.get("short_file") else None,
                        type_b=case.get("type_b", False), attrib_res=bytes(case.get("attrib_res", b"\x00")))
     raise ValueError(k)
 
@@ -175,7 +176,7 @@ def run_case(case):
 
     tag, exc = call("activate", lambda: nfc.tag.activate(clf, target))
     if exc is None:
-        events.append(ev("Finish", call="activate", none=tag is None))
+        events.append(ev("Finish", call="activate", none=True))     # a tag object or None: nothing to bound
     if exc is None and tag is not None:
         def read_ndef():
             nd = tag.ndef
@@ -454,6 +455,7 @@ def gen_t4(rnd, i):
     if rnd.random() < 0.25:
         case["short_read"] = rnd.choice([0, 0, 1, 2, 5])
         case["short_from"] = rnd.choice([0, 2, 2, 3])
+        case["short_file"] = rnd.choice(["e104", "e104", None])
     if rnd.random() < 0.15:
         case["aids"] = rnd.choice([["v1"], ["v2"], []])
     if rnd.random() < 0.2:
@@ -493,10 +495,26 @@ def directed_cases():
     nd = bytes([0, 3, 0xd0, 0, 0]) + bytes(45)
     out.append(dict(id="d-t4-ats-no-interface-bytes", kind="T4", files={"e103": list(cc), "e104": list(nd)}, ats=[2, 0x05]))
     out.append(dict(id="d-t4-ats-tl-only", kind="T4", files={"e103": list(cc), "e104": list(nd)}, ats=[1]))
-    out.append(dict(id="d-t4-empty-read-binary", kind="T4", files={"e103": list(cc), "e104": list(nd)}, short_read=0, short_from=2))
+    out.append(dict(id="d-t4-empty-read-binary", kind="T4", files={"e103": list(cc), "e104": list(nd)}, short_read=0, short_from=2,
+                    short_file="e104"))
     out.append(dict(id="d-t4-mle0", kind="T4", files={"e103": list(cc_file(mle=0)), "e104": list(nd)}))
     out.append(dict(id="d-t4-cclen1", kind="T4", files={"e103": list(cc_file(cclen=1)), "e104": list(nd)}))
     out.append(dict(id="d-t4-nlen-beyond-file", kind="T4", files={"e103": list(cc), "e104": list(b"\x00\x40" + bytes(48))}))
+    out.append(dict(id="d-t3-nbr255", kind="T3", blocks=[list(attr_block(nbr=255, nmaxb=200, ln=16 * 200))] + [[9] * 16] * 29,
+                    nbr_max=15))
+    out.append(dict(id="d-t4-mle-ffff", kind="T4", files={"e103": list(cc_file(mle=0xFFFF, maxsize=302)),
+                                                          "e104": list(b"\x01\x2c" + bytes(300))}))
+    out.append(dict(id="d-t4-nlen-beyond-maxsize", kind="T4", files={"e103": list(cc_file(maxsize=50)),
+                                                                      "e104": list(b"\x00\xc8" + bytes(298))}))
+    m2 = bytearray(144)
+    m2[0:10] = bytes.fromhex("05112233445566778899")
+    m2[12:16] = bytes([0xE1, 0x10, 6, 0])
+    m2[16:18] = bytes([3, 60])
+    out.append(dict(id="d-t2-tlv-beyond-area", kind="T2", mem=list(m2), version=None, uid=list(bytes.fromhex("05112233445566"))))
+    m5 = bytearray(512)
+    m5[0:120] = m
+    m5[12:14] = bytes([3, 200])
+    out.append(dict(id="d-t1-tlv-beyond-area", kind="T1", hr=[0x12, 0x4C], mem=list(m5)))
     return out
 
 
@@ -512,3 +530,149 @@ def make_cases(tier, seed):
                 c["silent_from"] = rnd.choice([1, 2, 3, 4, 5, 6, 8, 11, 15])
             cases.append(c)
     return cases
+
+
+# ------------------------------------------------------------------------------------------------
+def classify(tr, line, act, why):
+    k = tr["const"]["kind"]
+    e = tr["ev"][line - 1]
+    call = "?"
+    for x in tr["ev"][:line][::-1]:
+        if x["a"] == "Begin":
+            call = x["call"]
+            break
+    w = why[0] if why else "?"
+    call = "activate" if call == "activate" else "read"      # tag.ndef and ndef.has_changed run the same reader
+    if w == "exception":
+        return "exception:%s:%s:%s@%s" % (k, call, e["exc"], e["site"])
+    if w == "result":
+        if "len>cap" in why[1] and set(why[1]) <= {"len>cap", "off+len>hi"}:
+            return "result:%s:%s:message-longer-than-declared-data-area" % (k, call)
+        return "result:%s:%s:%s" % (k, call, "+".join(why[1]))
+    if w == "repeat":
+        return "loop:%s:%s:%s-requested-again" % (k, call, e["u"].split(":")[0])
+    if w == "budget":
+        return "budget:%s:%s:more-commands-than-3x-memory-units" % (k, call)
+    if w == "reference":
+        return "reference:%s:%s:result-differs-from-RefRead" % (k, call)
+    return "%s:%s:%s:%s" % (w, k, call, act)
+
+
+def signature(tr):
+    """what makes a case non-trivially different: tag type, the calls' outcomes and the command profile"""
+    out = [tr["const"]["kind"]]
+    for e in tr["ev"]:
+        if e["a"] in ("Finish", "Raise"):
+            out.append((e["call"], e["a"], e["exc"], e["none"], min(e["len"], 300) // 16))
+        elif e["a"] in ("Read", "ReadAt", "Select", "Cmd", "Retry"):
+            out.append((e["a"], e["n"], e["ok"]))
+    return hash(tuple(out))
+
+
+def selftest_traces(traces):
+    out = []
+    base = next(t for t in traces if t["const"]["kind"] == "T2" and not t["const"]["silent"] and t["const"]["mem"]
+                and any(e["a"] == "Finish" and e["call"] == "ndef" and not e["none"] and e["len"] > 0 for e in t["ev"])
+                and t["id"].startswith("wf-"))
+    t1 = json.loads(json.dumps(base))
+    for e in t1["ev"]:
+        if e["a"] == "Finish" and e["call"] == "ndef":
+            e["len"] -= 1                      # inside the area, but not what the reference reader finds
+            break
+    t1["id"] = base["id"] + "#corrupt"
+    out.append(t1)
+    t2 = json.loads(json.dumps(base))
+    del t2["ev"][0]                             # the Begin of activate: commands outside any call
+    t2["id"] = base["id"] + "#dropped"
+    out.append(t2)
+    return out
+
+
+def wellformed_cases(rnd, n):
+    out = []
+    for i in range(n):
+        size = rnd.choice([64, 64, 80, 144, 180])
+        mem = bytearray(size)
+        mem[0:10] = b"\x05" + rbytes(rnd, 9)
+        mem[12:16] = bytes([0xE1, 0x10, (size - 16) // 8, 0x00])
+        mem[16:] = valid_tlv_area(rnd, size - 16)
+        out.append(dict(id="wf-%04d" % i, kind="T2", mem=list(mem), version=None, uid=list(b"\x05" + rbytes(rnd, 6))))
+    return out
+
+
+def run(tier, seed):
+    ck = check.Check(PID, tier, seed, "exploration")
+    quick = tier == "quick"
+    t0 = time.time()
+    import concurrent.futures as cf
+    with cf.ThreadPoolExecutor(max_workers=2) as ex:
+        f_ref = ex.submit(tlc.run, "MC_TagReadRef.tla", "MC_TagRead_ref.cfg" if quick else "MC_TagRead_ref_thorough.cfg",
+                          PID + "/ref", workers=6, timeout=900)
+        f_mon = ex.submit(tlc.run, "MC_TagRead.tla", "MC_TagRead.cfg", PID + "/mon", workers=4, timeout=300)
+        cases = make_cases(tier, seed)
+        cases += wellformed_cases(random.Random("c08wf/%d" % seed), 150 if quick else 3000)
+        traces = [run_case(c) for c in cases]
+        rref, rmon = f_ref.result(), f_mon.result()
+    for name, r in (("MC_TagReadRef", rref), ("MC_TagRead", rmon)):
+        if not r.ok:
+            ck.violation("spec:%s:%s" % (name, ",".join(r.violated or ["deadlock"])),
+                         "TLC: %s" % str(r.error_trace or r.out[-1500:])[:2500])
+    hit, _ = tlc.witnesses("MC_TagReadRef.tla", "MC_TagRead_ref_reach.cfg", PID, ["W_Found", "W_WfLong", "W_NotWf"], workers=2)
+    hit2, _ = tlc.witnesses("MC_TagRead.tla", "MC_TagRead_reach.cfg", PID, ["W_FinishData", "W_Exhausted"], workers=2)
+    miss = {"W_Found", "W_WfLong", "W_NotWf", "W_FinishData", "W_Exhausted"} - hit - hit2
+    if miss:
+        raise tlc.TLCError("vacuous: witnesses not reached: %s" % sorted(miss))
+    by_id = {c["id"]: c for c in cases}
+    self_t = selftest_traces(traces)
+    verdicts, st = tlc.validate_traces("Trace_TagRead.tla", "Trace_TagRead.cfg", PID, traces + self_t,
+                                       shards=8 if quick else 16, timeout=900 if quick else 3000)
+    for t in self_t:
+        if verdicts[t["id"]][0] == "ACCEPT":
+            raise tlc.TLCError("binding vacuous: corrupted trace %s accepted" % t["id"])
+    acc, per_kind, sigs = 0, {}, set()
+    for tr in traces:
+        v = verdicts[tr["id"]]
+        k = tr["const"]["kind"]
+        per_kind.setdefault(k, [0, 0])[0] += 1
+        sigs.add(signature(tr))
+        if v[0] == "ACCEPT":
+            acc += 1
+            per_kind[k][1] += 1
+            continue
+        line, act, why = v[1], v[2], v[3]
+        key = classify(tr, line, act, why)
+        ck.violation(key, "case %s rejected at event %d (%s): %s" % (tr["id"], line, act, json.dumps(why)[:300]),
+                     replay=dict(kind="case", case=by_id[tr["id"]]))
+    ck.cover(evaluations=len(traces), distinct_nontrivial=len(sigs),
+             rule="distinct (tag type, outcome of each call with exception type / None / length bucket, sequence of "
+                  "commands with their sim classification and answered flag)",
+             accepted=acc, per_kind={k: dict(cases=v[0], accepted=v[1]) for k, v in per_kind.items()},
+             commands_recorded=sum(1 for t in traces for e in t["ev"] if e["a"] in ("Read", "ReadAt", "Select", "Cmd", "Retry")),
+             ref_reader_images=rref.distinct // 2, monitor_states=rmon.distinct, trace_states=st["states"],
+             binding_selftest="Finish length off by one on a well-formed Type 2 image (reference reader) and a dropped Begin both rejected",
+             wall_exec_and_mc=round(time.time() - t0, 1))
+    ck.sample(dict(case=traces[0]["id"], const={k: v for k, v in traces[0]["const"].items() if k != "mem"},
+                   events=[{k: v for k, v in e.items() if k in ("a", "u", "n", "call", "exc")} for e in traces[0]["ev"][:10]]))
+    ck.sample(dict(reference_reader="MC_TagReadRef", images=rref.distinct // 2))
+    ck.assume("simulated tags answer every command with a frame of the right shape (lengths, CRC are C07/C16's subject); "
+              "contents are arbitrary", "the data area is the one the tag declares in its management bytes",
+              "the reference reader covers the Type 2 TLV area only; other types are judged by the monitor alone",
+              "Type 4 tags are driven at the I-block level without transmission errors (C12's subject)",
+              "a muted/removed tag is modelled by silence from the k-th command on")
+    return ck.finish()
+
+
+def replay(rep, args):
+    case = rep["replay"]["case"]
+    tr = run_case(case)
+    verdicts, st = tlc.validate_traces("Trace_TagRead.tla", "Trace_TagRead.cfg", PID + "_replay", [tr], shards=1)
+    v = verdicts[tr["id"]]
+    for e in tr["ev"]:
+        if e["a"] in ("Begin", "Finish", "Raise"):
+            print("  ", {k: x for k, x in e.items() if k in ("a", "call", "none", "off", "len", "cap", "exc", "site")})
+    print("replay verdict:", v)
+    if v[0] != "ACCEPT":
+        print("key:", classify(tr, v[1], v[2], v[3]))
+        print("VIOLATION property=%s replay=%s" % (PID, args.replay))
+        return 1
+    return 0
